@@ -37,6 +37,12 @@ def handleFilter (j : Json) : Json :=
       | r :: _ => todoOpen todo r fe
       | [] => todoOpen todo 0 fe
     else none
+  if getS j "op" == "freebusy" then
+    -- one event of a free-busy report: {"opaque":b,"max":n,…} → the periods it contributes, or null = refused
+    match fbEvent (getBool j "opaque") (getNat j "max") fs fe ovr mainRanges with
+    | some rs => obj [("fb", Json.arr (rs.map (fun r => Json.arr #[jInt r.s, jInt r.e])).toArray)]
+    | none => obj [("fb", Json.null)]
+  else
   match openTodo with
   | some b =>
     -- lines 7 / 8 of the VTODO table: unbounded range, hull is open-ended
